@@ -254,6 +254,10 @@ def match_known(cls, site, msg, sql, klist):
                 return k["id"]
             continue
         if site is None:
+            # the panic was seen inside a session but did not happen again when the statement ran alone (the
+            # planner iterates a randomly seeded HashMap): the assertion text itself identifies the site
+            if m.get("msg_identifies_site") and re.search(m["msg"], msg or ""):
+                return k["id"]
             continue
         f = site.rsplit(":", 1)[0]
         if not any(f.startswith(p) for p in m.get("files", [])):
